@@ -152,24 +152,29 @@ Built build(const model::MLib& m) {
         for (auto& mp : mc.paths) {
             if (mp.spine.empty()) continue;
             Tag tag = make_tag(mp.layer, mp.dtype);
-            Vec2 start = Vec2{user(m, mp.spine[0].x), user(m, mp.spine[0].y)};
+            // built small and brought to size by scale(): lengths and offsets always follow, widths only when
+            // they are set to scale (a power of two: every division and product is exact)
+            const double k = mp.prescale > 0 ? mp.prescale : 1;
+            auto U = [&](dg_t v) { return user(m, v) / k; };
+            auto Wd = [&](dg_t v) { return mp.scale_width ? user(m, v) / k : user(m, v); };
+            Vec2 start = Vec2{U(mp.spine[0].x), U(mp.spine[0].y)};
             if (mp.impl == 0) {
                 FlexPath* p = (FlexPath*)allocate_clear(sizeof(FlexPath));
                 uint64_t ne = (uint64_t)(mp.nelem < 1 ? 1 : mp.nelem);
-                p->init(start, ne, 2 * user(m, mp.hw), user(m, mp.sep), tol, tag);
+                p->init(start, ne, 2 * Wd(mp.hw), U(mp.sep), tol, tag);
                 Array<Vec2> pts = {};
                 for (size_t i = 1; i < mp.spine.size(); i++)
-                    pts.append(Vec2{user(m, mp.spine[i].x), user(m, mp.spine[i].y)});
+                    pts.append(Vec2{U(mp.spine[i].x), U(mp.spine[i].y)});
                 for (uint64_t e = 0; e < ne; e++) {
                     // (set before the segments are added: the bends are built as the centre line grows)
                     if (mp.bend > 0) {
                         p->elements[e].bend_type = BendType::Circular;
-                        p->elements[e].bend_radius = user(m, mp.bend);
+                        p->elements[e].bend_radius = U(mp.bend);
                     }
                 }
                 if (pts.count > 0) {
                     if (!mp.simple && mp.taper > 0) {
-                        std::vector<double> w(ne, 2 * user(m, mp.taper));
+                        std::vector<double> w(ne, 2 * Wd(mp.taper));
                         p->segment(pts, w.data(), NULL, false);  // widths change linearly towards these
                     } else {
                         p->segment(pts, NULL, NULL, false);
@@ -180,25 +185,27 @@ Built build(const model::MLib& m) {
                 p->scale_width = mp.scale_width;
                 for (uint64_t e = 0; e < ne; e++) {
                     p->elements[e].end_type = end_type_of(mp.end);
-                    p->elements[e].end_extensions = Vec2{user(m, mp.eu), user(m, mp.ev)};
+                    p->elements[e].end_extensions = Vec2{U(mp.eu), U(mp.ev)};
                     p->elements[e].join_type = join_type_of(mp.join);
                 }
+                if (k != 1) p->scale(k, Vec2{0, 0});
                 build_rep(m, mp.rep, p->repetition);
                 p->properties = build_props(mp.props);
                 c->flexpath_array.append(p);
             } else {
                 RobustPath* p = (RobustPath*)allocate_clear(sizeof(RobustPath));
                 uint64_t ne = (uint64_t)(mp.nelem < 1 ? 1 : mp.nelem);
-                p->init(start, ne, 2 * user(m, mp.hw), user(m, mp.sep), tol, 1000, tag);
+                p->init(start, ne, 2 * Wd(mp.hw), U(mp.sep), tol, 1000, tag);
                 for (size_t i = 1; i < mp.spine.size(); i++)
-                    p->segment(Vec2{user(m, mp.spine[i].x), user(m, mp.spine[i].y)}, NULL, NULL,
+                    p->segment(Vec2{U(mp.spine[i].x), U(mp.spine[i].y)}, NULL, NULL,
                                false);
                 p->simple_path = mp.simple;
                 p->scale_width = mp.scale_width;
                 for (uint64_t e = 0; e < ne; e++) {
                     p->elements[e].end_type = end_type_of(mp.end);
-                    p->elements[e].end_extensions = Vec2{user(m, mp.eu), user(m, mp.ev)};
+                    p->elements[e].end_extensions = Vec2{U(mp.eu), U(mp.ev)};
                 }
+                if (k != 1) p->scale(k, Vec2{0, 0});
                 build_rep(m, mp.rep, p->repetition);
                 p->properties = build_props(mp.props);
                 c->robustpath_array.append(p);
